@@ -36,7 +36,8 @@ manifest = {
         "add_only": True,
     },
     "engines": [
-        {"name": "harness", "path": "/verif/harness", "serves_properties": sorted(PROPS), "kind_free_text": "Go test binary: pgregory.net/rapid generators + native go fuzzing over a simulated wire (testing/synctest virtual clock, real classic-BPF programs in the x/net/bpf VM, independent packet codec); driver /verif/check (python3)"},
+        {"name": "c13_kernel.py", "path": "/verif/c13_kernel.py", "serves_properties": ["C13"], "kind_free_text": "python3 orchestration of ip-netns topologies around the CLI built from /repo"},
+        {"name": "harness", "path": "/verif/harness", "serves_properties": sorted(p for p in PROPS if p != "C13"), "kind_free_text": "Go test binary: pgregory.net/rapid generators + native go fuzzing over a simulated wire (testing/synctest virtual clock, real classic-BPF programs in the x/net/bpf VM, independent packet codec); driver /verif/check (python3)"},
     ],
     "checks": checks,
     "notes": NOTES,
